@@ -42,6 +42,12 @@ def run(ctx: Ctx):
     from .common import generic_lints
 
     generic_lints(ctx)
+    from .common import dependency_footprints
+
+    dependency_footprints(ctx)
+    from .common import float64_extractors
+
+    float64_extractors(ctx)
 
 
 # --------------------------------------------------------------------------- 1
